@@ -9,6 +9,20 @@ HERE = os.path.dirname(os.path.dirname(os.path.abspath(__file__)))
 sys.path.insert(0, HERE)
 
 CLAIMED = {
+    'C08': dict(
+        category='other',
+        text='Agreement and isolation clauses: every option-table row binds name, parser and printer of the same option, '
+             'names unique and equal to the documented options, terminator last, callback indexes by the name lookup; '
+             'each parser writes exactly the configuration fields its printer reads; the syslog name tables agree in '
+             'both directions, are bijective and each name is its LOG_ macro suffix; the byte-length parser\'s returns '
+             'are proved inside [min,max] (or the default) for all numbers by the linear-inequality engine, with no '
+             'overflowing signed arithmetic, and the two limits only receive such values; a foreign section returns from '
+             'the callback without any call; configuration fields are written only by parsers, defaults, destructor and '
+             'loader; defaults are total.',
+        design_ref='DESIGN.md §5 C08',
+        note='Not decided: value semantics per option text (quote stripping, boolean by first letter, k/m value), last '
+             'occurrence wins as a value statement, the snoopyctl conf round trip as a string identity.',
+        technique='static analysis: table/field/sibling agreement (A7) + CFG path isolation + linear-inequality clamp proof'),
     'C05': dict(
         category='other',
         text='Decides the two length clauses only: sizes are composed symbolically across action -> generateFromFormat -> '
